@@ -435,6 +435,7 @@ _random_write_seed (const char *path, int num_bytes)
     int            num_left;
     int            num_want;
     int            n;
+    int            is_old = 0;
     unsigned char  buf [RANDOM_SEED_BYTES];
 
     assert (path != NULL);
@@ -447,6 +448,7 @@ _random_write_seed (const char *path, int num_bytes)
     if ((rv < 0) && (errno != ENOENT)) {
         log_msg (LOG_WARNING, "Failed to unlink old PRNG seed \"%s\": %s",
                 path, strerror (errno));
+        is_old = 1;
     }
     do {
         fd = open (path, O_WRONLY | O_CREAT | O_TRUNC, 0600);
@@ -455,6 +457,16 @@ _random_write_seed (const char *path, int num_bytes)
     if (fd < 0) {
         log_msg (LOG_WARNING, "Failed to create PRNG seed \"%s\": %s",
                 path, strerror (errno));
+        return (-1);
+    }
+    /*  An old seed that could not be removed has been reused by the open()
+     *    above along with whatever permissions it had.
+     */
+    if (is_old && (fchmod (fd, S_IRUSR | S_IWUSR) < 0)) {
+        log_msg (LOG_WARNING,
+                "Failed to set permissions of PRNG seed \"%s\": %s",
+                path, strerror (errno));
+        (void) close (fd);
         return (-1);
     }
     num_left = num_bytes;
